@@ -330,6 +330,8 @@ def gen_world(rng, n_inputs=None, n_formulas=None, sheets=None, names=True,
             tpl = 'FLAKY(' + tpl + ')'
         elif userfuncs and rng.random() < 0.05:
             tpl = 'SPY(' + tpl + ')'
+        elif userfuncs and rng.random() < 0.07:
+            tpl = '(' + tpl + ')&WHO()'
         fa = place(sheet)
         sub = {}
         relative = True
@@ -442,3 +444,42 @@ def world_model(world, cells=None, stale=False, build_code=True):
             if a in model.cells:
                 model.set_cell_value(a, dec(v))
     return model
+
+
+def run_decoy(world, namespace=None):
+    """Another workbook used earlier in the same process: the same formula
+    texts and the same defined names, but the names point at other cells and
+    the constants differ.  Anything the library keeps at module level keyed
+    too coarsely (formula text, name set, file name ...) is poisoned by it.
+    Outcomes are ignored."""
+    from xlcalculator import Evaluator
+    from .seams import Stepper
+    from .canon import outcome_of
+    order = world['order']
+    if not order:
+        return
+    names = {}
+    for i, (n, a) in enumerate(sorted(world['names'].items())):
+        if a in order:
+            names[n] = order[(order.index(a) + 1 + i) % len(order)]
+        else:
+            names[n] = order[i % len(order)]
+    cells = {}
+    for a, v in world['cells'].items():
+        if isinstance(v, str) and v.startswith('='):
+            cells[a] = v
+        elif isinstance(v, bool) or not isinstance(v, (int, float)):
+            cells[a] = v
+        else:
+            cells[a] = v + 1000
+    decoy = dict(world, names=names, cells=cells, range_names={})
+    try:
+        model = world_model(decoy)
+    except Exception:
+        return
+    ev = Evaluator(model, namespace) if namespace is not None \
+        else Evaluator(model)
+    for a in order:
+        st = Stepper(max_steps=300_000, max_depth=900)
+        with st:
+            outcome_of(ev.evaluate, a)
